@@ -404,6 +404,48 @@ def run(rep):
                     if A1._key() == B._key():
                         rep.violation("operators whose leaf data differ have different keys", f"{d[0]}: {_diff(d, mu)}",
                                       inputs={"a": ta, "b": tb, "expect_equal": False}, detail=f"both keys are {A1._key()[:300]!r}")
+    extra_clauses(rep, pp)
+
+
+def extra_clauses(rep, pp):
+    """Leaf data the catalogue does not reach: the KIND of a domain (subdomain / interface / boundary grid share id counters), the shape
+    of a dense array, and a Scalar whose value is changed through set_value after its key (and the key of a parent) was used."""
+    import numpy as np
+
+    with rep.sweep("domain kinds, array shapes, mutable scalars", rule="fixed cases on a fractured Cartesian md-grid", bound="1 md-grid", exhaustive=True) as sw:
+        mdg, _ = pp.mdg_library.square_with_orthogonal_fractures("cartesian", {"cell_size": 0.5}, [0])
+        sd, intf, bg = mdg.subdomains()[0], mdg.interfaces()[0], mdg.boundaries()[0]
+        doms = {"subdomain": sd, "interface": intf, "boundary grid": bg}
+        makers = {"TimeDependentDenseArray": lambda d: pp.ad.TimeDependentDenseArray("x", [d]),
+                  "Variable": lambda d: pp.ad.Variable("u", {"cells": 1}, d) if not isinstance(d, pp.BoundaryGrid) else None}
+        for cls, mk in makers.items():
+            ops = {k: mk(d) for k, d in doms.items() if d.id == sd.id}
+            ops = {k: o for k, o in ops.items() if o is not None}
+            names = sorted(ops)
+            for i in range(len(names)):
+                for j in range(i + 1, len(names)):
+                    sw.case((cls, names[i], names[j]), True)
+                    if ops[names[i]]._key() == ops[names[j]]._key() or hash(ops[names[i]]) == hash(ops[names[j]]):
+                        rep.violation("operators whose leaf data differ have different keys", f"{cls}: same name and id on a {names[i]} and a {names[j]}",
+                                      inputs={"class": cls, "domains": [names[i], names[j]], "id": int(sd.id)}, detail=ops[names[i]]._key())
+        a2, a1 = pp.ad.DenseArray(np.arange(6.0).reshape(2, 3)), pp.ad.DenseArray(np.arange(6.0))
+        sw.case("dense shape", True)
+        if a2._key() == a1._key():
+            rep.violation("operators whose leaf data differ have different keys", "DenseArray: same buffer, different shape", inputs={"shapes": [[2, 3], [6]]}, detail=a2._key())
+        x = pp.ad.Variable("u", {"cells": 1}, sd)
+        s = pp.ad.Scalar(1.0)
+        parent = s * x
+        _ = s._key(), parent._key(), hash(parent)
+        s.set_value(2.0)
+        sw.case("scalar set_value", True)
+        if s._key() != pp.ad.Scalar(2.0)._key():
+            rep.violation("identical trees over the same leaf data have equal keys and hashes", "Scalar after set_value", inputs={"old": 1.0, "new": 2.0},
+                          detail=f"{s._key()!r} vs {pp.ad.Scalar(2.0)._key()!r}")
+        sw.case("parent of a scalar after set_value", True)
+        fresh = pp.ad.Scalar(2.0) * x
+        if parent._key() != fresh._key():
+            rep.violation("identical trees over the same leaf data have equal keys and hashes", "parent of a Scalar whose value was changed through set_value",
+                          inputs={"old": 1.0, "new": 2.0}, detail=f"{parent._key()!r} vs {fresh._key()!r}")
 
 
 def _diff(a, b):
